@@ -48,6 +48,12 @@ func makeExport(src *choice.Source, st *Stats, which int, tris []*model3d.Triang
 		return [3]uint8{uint8(h), uint8(h >> 8), uint8(h >> 16)}
 	}
 	e := &export{tris: tris}
+	guard := guardInput("session", tris)
+	defer func() {
+		if f := guard(); f != nil {
+			e.check = func([]byte) *Finding { return f }
+		}
+	}()
 	switch which % 4 {
 	case 0:
 		e.name = "EncodeSTL"
